@@ -89,7 +89,7 @@ func (e *engine) checkRead(op *opRec, idx int) {
 	}
 	s0 := e.snaps[op.start]
 	originMin := s0[op.node].viewMin
-	var hwBound, leoBound uint64
+	var hwBound, leoBound, persisted uint64
 	allowLEO := false
 	for i := op.start; i <= idx; i++ {
 		s := e.snaps[i][serving]
@@ -97,6 +97,7 @@ func (e *engine) checkRead(op *opRec, idx int) {
 			continue
 		}
 		hwBound = max64(hwBound, s.phw)
+		persisted = max64(persisted, s.phw)
 		if s.loaded {
 			hwBound = max64(hwBound, s.rv.HW)
 		}
@@ -133,9 +134,17 @@ func (e *engine) checkRead(op *opRec, idx int) {
 		if m.seq > committed {
 			detail := fmt.Sprintf("op%d %s returned seq %d above the committed watermark %d of serving node %d (durable log end %d, LEO counted as committed: %v)", op.id, op.desc, m.seq, committed, serving, leoBound, allowLEO)
 			facts := map[string]any{"seq": m.seq, "hw": committed, "leo": leoBound, "serving": serving}
-			if op.mgmt {
-				e.defer_("mgmt-read-above-hw", "Node.ReadChannelCommitted", detail, facts)
-			} else {
+			switch {
+			case op.mgmt:
+				e.defer_(true, "mgmt-read-above-hw", "Node.ReadChannelCommitted", detail, facts)
+			case persisted == 0:
+				// the serving replica had no persisted checkpoint watermark during the read: one
+				// root cause (a zero cap is treated as "no cap"), kept apart from every other way
+				// of reading above the watermark and deferred so that the run keeps exploring
+				// (reads have no side effects).
+				facts["path"] = path
+				e.defer_(false, "read-above-hw", "persisted-hw-zero", detail+" [path "+path+", persisted checkpoint HW of the serving node was 0]", facts)
+			default:
 				r.FailSig("read-above-hw", path, detail, facts)
 			}
 			return
@@ -143,19 +152,28 @@ func (e *engine) checkRead(op *opRec, idx int) {
 		if m.seq <= floor {
 			detail := fmt.Sprintf("op%d %s returned seq %d at or below the logical retention boundary %d known at invocation", op.id, op.desc, m.seq, floor)
 			if op.mgmt {
-				e.defer_("mgmt-read-below-retention", "Node.ReadChannelCommitted", detail, nil)
+				e.defer_(true, "mgmt-read-below-retention", "Node.ReadChannelCommitted", detail, nil)
 			} else {
 				r.FailSig("read-below-retention", path, detail, map[string]any{"seq": m.seq, "boundary": floor})
 			}
 			return
 		}
 		if e.barrierIDs[m.id] {
-			if op.synced {
-				r.FailSig("barrier-as-message", path, fmt.Sprintf("op%d %s returned recovery-barrier-shaped record id %d seq %d as an ordinary message", op.id, op.desc, m.id, m.seq), nil)
-				return
-			}
-			if !m.syncOnce {
-				r.FailSig("barrier-flag-lost", path, fmt.Sprintf("op%d %s returned barrier record id %d seq %d without its SyncOnce marker", op.id, op.desc, m.id, m.seq), nil)
+			if op.synced || !m.syncOnce {
+				// Where was the marker lost? Look at the durable row of the serving replica.
+				row, have := e.snaps[idx][serving].stored[m.seq]
+				detail := fmt.Sprintf("op%d %s returned recovery-barrier-shaped record id %d seq %d as an ordinary message", op.id, op.desc, m.id, m.seq)
+				if !op.synced {
+					detail = fmt.Sprintf("op%d %s returned barrier record id %d seq %d without its SyncOnce marker", op.id, op.desc, m.id, m.seq)
+				}
+				switch {
+				case have && row.id == m.id && !row.syncOnce:
+					e.defer_(op.mgmt, "barrier-as-message", "stored-without-marker", detail+fmt.Sprintf(" [path %s; the durable row on serving node %d has no SyncOnce marker: it was lost before the store (forwarded append or pull replication)]", path, serving), nil)
+				case forwarded && have && row.id == m.id && row.syncOnce:
+					e.defer_(false, "barrier-as-message", "forwarded-read", detail+fmt.Sprintf(" [path %s; the durable row on serving node %d carries the marker: it was lost on the forwarded read response]", path, serving), nil)
+				default:
+					r.FailSig("barrier-as-message", path, detail, nil)
+				}
 				return
 			}
 			r.Probe("read.raw_saw_barrier")
@@ -169,9 +187,17 @@ func (e *engine) checkRead(op *opRec, idx int) {
 // defer_ records a management-path violation; it is raised at the end of the
 // run unless a client-path violation ended the run first, so that neither
 // surface can mask the other inside one run.
-func (e *engine) defer_(class, sig, detail string, facts map[string]any) {
-	e.r.Logf("  MANAGEMENT-PATH %s: %s", class, detail)
-	e.r.Probe("mgmt." + class)
+func (e *engine) defer_(mgmt bool, class, sig, detail string, facts map[string]any) {
+	if mgmt {
+		e.r.Logf("  MANAGEMENT-PATH %s: %s", class, detail)
+		e.r.Probe("deferred." + class)
+		if e.deferredMgmt == nil {
+			e.deferredMgmt = &pendingViolation{class, sig, detail, facts}
+		}
+		return
+	}
+	e.r.Logf("  DEFERRED %s/%s: %s", class, sig, detail)
+	e.r.Probe("deferred." + class + "/" + sig)
 	if e.deferred == nil {
 		e.deferred = &pendingViolation{class, sig, detail, facts}
 	}
